@@ -169,6 +169,8 @@ def vars_ops():
         for v in VVALUES:
             ops.append(['vset', n, v])
         ops.append(['vitem', n, VVALUES[-1]])
+        # the value handed over as a PropertyValue object - one object per value text and history, so two variables can share it
+        ops.append(['vsetobj', n, VVALUES[0]])
         ops.append(['vrm', n])
         ops.append(['vdel', n])
     ops.append(['vset', '1x', '1'])  # rejected: not an identifier
@@ -268,8 +270,19 @@ def vars_seq(vd):
     return out
 
 
+def _vars_aliasing(vd):
+    """which variables share one value object (the API takes PropertyValue objects: a state with sharing has other futures)"""
+    groups = {}
+    for name, val in getattr(vd, '_vars', {}).items():
+        if not isinstance(val, str):
+            groups.setdefault(id(val), []).append(name)
+    # ... and which hold an object the caller still has in hand (it may be handed over once more)
+    held = {id(v) for v in vd.__dict__.get('_c10_shared_values', {}).values()}
+    return [sorted(sorted(g) for g in groups.values() if len(g) > 1), sorted(n for n, val in getattr(vd, '_vars', {}).items() if id(val) in held)]
+
+
 def vars_key(block, vd):
-    return h64(jdump([block, vars_api(vd), vars_seq(vd), vd.cssText, vd.length]))
+    return h64(jdump([block, vars_api(vd), vars_seq(vd), vd.cssText, vd.length, _vars_aliasing(vd)]))
 
 
 def parse_style_text(text):
@@ -333,7 +346,7 @@ def opkind(op):
         return f'removeProperty(normalize={op[2]})'
     return {
         'item': '__setitem__', 'item2': '__setitem__(tuple)', 'del': '__delitem__', 'attr': '__setattr__', 'delattr': '__delattr__',
-        'text': 'cssText=', 'vset': 'setVariable', 'vitem': '__setitem__', 'vrm': 'removeVariable', 'vdel': '__delitem__', 'vtext': 'cssText=', 'seed': 'constructor',
+        'text': 'cssText=', 'vset': 'setVariable', 'vsetobj': 'setVariable(PropertyValue)', 'vitem': '__setitem__', 'vrm': 'removeVariable', 'vdel': '__delitem__', 'vtext': 'cssText=', 'seed': 'constructor',
     }[k]
 
 
@@ -354,7 +367,7 @@ def equivalent(op):
         return ['set', dom_to_css(op[1]), op[2], '', True, True]
     if k == 'delattr' and op[1] in KNOWN_DOM:
         return ['rm', dom_to_css(op[1]), True]
-    if k == 'vitem':
+    if k in ('vitem', 'vsetobj'):
         return ['vset', op[1], op[2]]
     if k == 'vdel':
         return ['vrm', op[1]]
@@ -405,6 +418,11 @@ def apply_real(obj, op):
         return None
     if k == 'vset':
         return obj.setVariable(op[1], op[2])
+    if k == 'vsetobj':
+        shared = obj.__dict__.setdefault('_c10_shared_values', {})
+        if op[2] not in shared:
+            shared[op[2]] = cssutils.css.PropertyValue(op[2])
+        return obj.setVariable(op[1], shared[op[2]])
     if k == 'vitem':
         obj[op[1]] = op[2]
         return None
@@ -447,7 +465,7 @@ def apply_model(m, op):
     if k == 'text':
         m.set_text(STYLE_TEXTS[op[1]][1])
         return None
-    if k in ('vset', 'vitem'):
+    if k in ('vset', 'vitem', 'vsetobj'):
         if ref_vars.norm(op[1])[:1].isdigit():
             raise ref_decl.Rejected('name')
         m.set(op[1], op[2])
@@ -1015,6 +1033,8 @@ def _src(op, var):
         return f'{var}.cssText = {VARS_TEXTS[op[1]][0]!r}'
     if k == 'vset':
         return f'{var}.setVariable({op[1]!r}, {op[2]!r})'
+    if k == 'vsetobj':
+        return f'{var}.setVariable({op[1]!r}, SHARED.setdefault({op[2]!r}, cssutils.css.PropertyValue({op[2]!r})))  # SHARED = {{}} once per history'
     if k == 'vrm':
         return f'print(repr({var}.removeVariable({op[1]!r})))'
     return f'# {op!r}'
